@@ -3,8 +3,9 @@
 # License: GNU GPL v2 (see LICENSE file for details).
 
 from .node import Node
+from .constant_val import ConstantValue
 from ..util import get_keys, is_same_class, vsprintf
-from typing import List
+from typing import List, Optional
 
 KNOWN_SYMBOLS: List[str] = [
     "ancestor"
@@ -114,64 +115,91 @@ class DateTimeFunction(Node):
         return vsprintf("_system.date('%s')", self.name)
 
 #
+# Object identified by a number, a name or an expression (sprite 1,
+# cast "name", sound (n + 1), ...).
+#
+class IdentifiedObject(Node):
+    """This class represents an object given by its identifier in the AST"""
+
+    def __init__(self, ident, position: int):
+        # The identifier is the node of the expression (or its text)
+        if isinstance(ident, Node):
+            super().__init__(ident.name, position)
+            self.ident: Optional[Node] = ident
+        else:
+            super().__init__(ident, position)
+            self.ident = None
+
+    def ident_lingo(self, indentation: int) -> str:
+        if self.ident is None or isinstance(self.ident, ConstantValue):
+            # A number or a name is written as it is: cast "name"
+            return self.name
+        return self.ident.generate_lingo(indentation)
+
+    def ident_js(self, indentation: int, factory_method: bool) -> str:
+        if self.ident is None or isinstance(self.ident, ConstantValue):
+            return self.name
+        return self.ident.generate_js(indentation, factory_method)
+
+#
 # Menu class.
 # 
-class Menu(Node):
+class Menu(IdentifiedObject):
     """This class represents a menu in the AST"""
     
     def __init__(self, name: str, position: int):
         super().__init__(name, position)
     
     def generate_lingo(self, indentation: int) -> str: 
-        return vsprintf("menu %s", self.name)
+        return vsprintf("menu %s", self.ident_lingo(indentation))
 
     def generate_js(self, indentation: int, factory_method: bool) -> str: 
-        return vsprintf("_menuBar.menu[%s]", self.name)
+        return vsprintf("_menuBar.menu[%s]", self.ident_js(indentation, factory_method))
     
 #
 # Menuitem class.
 # 
-class MenuItem(Node):
+class MenuItem(IdentifiedObject):
     """This class represents a menu item in the AST"""
     
     def __init__(self, name: str, position: int):
         super().__init__(name, position)
 
     def generate_lingo(self, indentation: int) -> str: 
-        return vsprintf("menuItem %s", self.name)
+        return vsprintf("menuItem %s", self.ident_lingo(indentation))
 
     def generate_js(self, indentation: int, factory_method: bool) -> str: 
-        return vsprintf("item[%s]", self.name)    
+        return vsprintf("item[%s]", self.ident_js(indentation, factory_method))    
 
 #
 # SoundChannel class.
 # 
-class SoundChannel(Node):
+class SoundChannel(IdentifiedObject):
     """This class represents a sound channel in the AST"""
     
     def __init__(self, name: str, position: int):
         super().__init__(name, position)
 
     def generate_lingo(self, indentation: int) -> str: 
-        return vsprintf("sound %s", self.name)
+        return vsprintf("sound %s", self.ident_lingo(indentation))
 
     def generate_js(self, indentation: int, factory_method: bool) -> str: 
-        return vsprintf("sound(%s)", self.name)
+        return vsprintf("sound(%s)", self.ident_js(indentation, factory_method))
 
 #
 # Sprite class.
 # 
-class Sprite(Node):
+class Sprite(IdentifiedObject):
     """This class represents a sprite in the AST"""
     
     def __init__(self, name: str, position: int):
         super().__init__(name, position)
 
     def generate_lingo(self, indentation: int) -> str: 
-        return vsprintf("sprite %s", self.name)
+        return vsprintf("sprite %s", self.ident_lingo(indentation))
 
     def generate_js(self, indentation: int, factory_method: bool) -> str: 
-        return vsprintf("sprite(%s)", self.name)
+        return vsprintf("sprite(%s)", self.ident_js(indentation, factory_method))
 
 
 #
@@ -186,14 +214,14 @@ class SystemObject(Node):
 #
 # Cast element class.
 # 
-class Cast(Node):
+class Cast(IdentifiedObject):
     """This class represents a cast element in the AST"""
     
     def __init__(self, name: str, position: int):
         super().__init__(name, position)
 
     def generate_lingo(self, indentation: int) -> str: 
-        return vsprintf("cast %s", self.name)
+        return vsprintf("cast %s", self.ident_lingo(indentation))
 
     def generate_js(self, indentation: int, factory_method: bool) -> str: 
-        return vsprintf("member(%s)", self.name)
+        return vsprintf("member(%s)", self.ident_js(indentation, factory_method))
